@@ -308,10 +308,11 @@ Proof.
     + destruct d as [a s|a tg raf vs].
       * eapply shape_refs; eassumption.
       * destruct vs as [|v vs]; [inversion H; apply r_refs_none, incl_nil_l|].
-        apply bind_ok in H as (xs & Hxs & H). inversion H; subst.
+        apply bind_ok in H as (xs & Hxs & H).
         apply oconcat_ok in Hl0 as (ll & Hll & ->).
         assert (Hall : incl (flat_map refs xs) (eids (concat ll))).
         { eapply (sub_refs _ refs _ _ _ _ _ Hxs Hll); [auto|]. intros; eapply variant_refs; eassumption. }
+        destruct xs as [|x0 xs0]; inversion H; subst; [apply r_refs_none, incl_nil_l|].
         split; cbn [fst snd refs]; [exact Hall|]. intros x Hx; inversion Hx; subst. exact Hall.
 Qed.
 End Def.
